@@ -569,6 +569,24 @@ def main(rec):
         rec.merge_stats(rr["stats"])
         for v in rr["violations"]:
             rec.violation(v["mech"], v["detail"], c)
+    # qualified names of one to four components with the same last name declared at every level
+    qc = []
+    for k in range(12 if thorough else 4):
+        t_ = tys[k % len(tys):] + tys[:k % len(tys)]
+        levels = [("outer", {"Index": t_[0], "Count": t_[1]}), ("inner", {"Index": t_[2], "Count": t_[3]})]
+        if k % 2 == 0:
+            levels.append(("deep", {"Index": t_[4]}))
+        qc.append({"name": "qualified%d" % k, "levels": levels, "global": ({"Index": t_[5]} if k % 3 != 2 else None)})
+    qres = pool.run_cases("vf.checks.c09", qc, func="run_qualified", timeout=600)
+    for c, rr in zip(qc, qres):
+        if "stats" not in rr or rr.get("harness_error"):
+            workloads.bad_run(rec, c, rr)
+            if rr.get("harness_error"):
+                rec.inconclusive = rr["harness_error"][:300]
+            continue
+        rec.merge_stats(rr["stats"])
+        for v in rr["violations"]:
+            rec.violation(v["mech"], v["detail"], c)
     rec.distinct_override = rec.counters.get("accepted", 0) + rec.counters.get("online_roundtrips", 0)
     if rec.counters.get("gxx_asserts", 0) == 0:
         rec.inconclusive = "no g++ assertion was generated"
@@ -653,6 +671,108 @@ def run_scoped(case):
             if q.returncode != 0:
                 w_, m_ = engine.first_error(q.stderr)
                 res["violations"].append({"mech": "scoped:wrapper-does-not-compile:%s" % m_, "detail": "%s %s\n%s" % (case["name"], f, q.stderr[:1500])})
+        return res
+    finally:
+        if cwd:
+            common.rmtree(cwd)
+
+
+def run_qualified(case):
+    """Qualified type names of one to four components, written from the global scope, from inside the outer namespace
+    (relative qualification) and from an unrelated namespace, where every level declares a type of the same last name."""
+    from .. import shroudrun, engine
+    import subprocess
+    levels = case["levels"]        # [("outer", {"Index": "long", ...}), ("inner", {...}), ("deep", {...})] nested in this order
+    glob = case.get("global") or {}
+    res = {"violations": [], "stats": {}, "name": case["name"]}
+    hdr, decls, asserts = ["#ifndef QUA_HPP", "#define QUA_HPP"], [], []
+    for tn, ty in glob.items():
+        hdr.append("typedef %s %s;" % (ty, tn))
+        decls.append({"decl": "typedef %s %s" % (ty, tn)})
+    # nested namespaces with their typedefs
+    def nest(i):
+        ns, tds = levels[i]
+        hdr.append("namespace %s {" % ns)
+        nd = []
+        for tn, ty in tds.items():
+            hdr.append("typedef %s %s;" % (ty, tn))
+            nd.append({"decl": "typedef %s %s" % (ty, tn)})
+        if i + 1 < len(levels):
+            nd.append(nest(i + 1))
+        if i == 0:
+            # functions inside the outer namespace that name inner types relative to it
+            for j in range(1, len(levels)):
+                rel = "::".join(l[0] for l in levels[1:j + 1])
+                for tn in levels[j][1]:
+                    q, full = "%s::%s" % (rel, tn), "::".join(l[0] for l in levels[:j + 1]) + "::" + tn
+                    fn = "rel%d_%s" % (j, tn.lower())
+                    hdr.append("%s %s(%s n, %s *p);" % (q, fn, q, q))
+                    nd.append({"decl": "%s %s(%s n, %s *p +intent(inout))" % (q, fn, q, q)})
+                    asserts.append(("QUA_%s_%s" % (levels[0][0], fn), "%s(%s, %s *)" % (full, full, full)))
+        hdr.append("}")
+        return {"decl": "namespace %s" % ns, "declarations": nd}
+    top = nest(0)
+    decls.append(top)
+    k = 0
+    quals = [(tn, tn) for tn in glob]
+    for j in range(len(levels)):
+        pre = "::".join(l[0] for l in levels[:j + 1])
+        quals += [("%s::%s" % (pre, tn), "%s::%s" % (pre, tn)) for tn in levels[j][1]]
+    other, ohdr = [], []
+    for q, full in quals:
+        fn = "qf%d" % k
+        k += 1
+        hdr.append("%s %s(%s n, const %s *p);" % (q, fn, q, q))
+        decls.append({"decl": "%s %s(%s n, const %s *p)" % (q, fn, q, q)})
+        asserts.append(("QUA_%s" % fn, "%s(%s, const %s *)" % (full, full, full)))
+        if "::" in q:
+            ohdr.append("%s of%d(%s n);" % (q, k, q))
+            other.append({"decl": "%s of%d(%s n)" % (q, k, q)})
+            asserts.append(("QUA_other_of%d" % k, "%s(%s)" % (full, full)))
+    hdr += ["namespace other {"] + ohdr + ["}"]
+    decls.append({"decl": "namespace other", "declarations": other})
+    hdr.append("#endif")
+    y = {"library": "qua", "cxx_header": "qua.hpp", "language": "c++",
+         "options": {"wrap_c": True, "wrap_fortran": False, "wrap_python": False, "wrap_lua": False}, "declarations": decls}
+    sp = {"name": case["name"], "files": {"work/qua.yaml": workloads.dump_yaml(y)}, "dirs": ["out"],
+          "argv": ["--outdir", "out", "--logdir", "out", "work/qua.yaml"], "monitors": [], "keep": True}
+    rr = shroudrun.run(sp)
+    cwd = rr.get("cwd")
+    try:
+        if rr.get("exc") or rr.get("exit") != 0:
+            k_, t_ = engine.reject_mech(rr)
+            res["violations"].append({"mech": "qualified:shroud-rejects:" + k_, "detail": "%s: %s\n%s" % (case["name"], t_, workloads.dump_yaml(y)[:1500])})
+            return res
+        out = os.path.join(cwd, "out")
+        open(os.path.join(out, "qua.hpp"), "w").write("\n".join(hdr) + "\n")
+        pchk = subprocess.run(["g++", "-std=c++11", "-fsyntax-only", "-w", "-x", "c++", "qua.hpp"], cwd=out, capture_output=True, text=True, timeout=300)
+        if pchk.returncode != 0:
+            res["harness_error"] = "qualified-name header does not compile: " + pchk.stderr[:600]
+            return res
+        heads = sorted(f for f in os.listdir(out) if f.startswith("wrap") and f.endswith(".h"))
+        chk = ['#include <type_traits>', '#include "qua.hpp"'] + ['#include "%s"' % h for h in heads]
+        for i, (cname, ftype) in enumerate(asserts):
+            chk.append('static_assert(std::is_same<decltype(%s), %s>::value, "VFASSERT %d");' % (cname, ftype, i))
+        open(os.path.join(out, "chk.cpp"), "w").write("\n".join(chk) + "\n")
+        p = subprocess.run(["g++", "-std=c++11", "-fsyntax-only", "-w", "-I", ".", "chk.cpp"], cwd=out, capture_output=True, text=True, timeout=300)
+        res["stats"]["qualified_prototypes_checked"] = len(asserts)
+        failed = sorted({int(x) for x in re.findall(r"VFASSERT (\d+)", p.stderr)})
+        otherr = [ln for ln in p.stderr.split("\n") if "error" in ln and "VFASSERT" not in ln and "static assertion" not in ln][:4]
+        alltext = "\n".join(open(os.path.join(out, h)).read() for h in heads)
+        for i in failed:
+            cname, ftype = asserts[i]
+            proto = re.search(r"[^;{}]*\b%s\([^;]*;" % re.escape(cname), alltext)
+            ncomp = ftype.split("(")[0].count("::") + 1
+            res["violations"].append({"mech": "qualified-name-resolves-differently:%d-components:%s" % (ncomp, "relative" if "_rel" in cname else ("other-namespace" if "_other_" in cname else "global")),
+                                      "detail": "%s: %s is declared %r; the compiler derives %s from the library header" % (
+                                          case["name"], cname, " ".join((proto.group(0) if proto else "?").split()), ftype)})
+        if otherr and not failed:
+            res["violations"].append({"mech": "qualified:checker-does-not-compile", "detail": "%s\n%s" % (case["name"], "\n".join(otherr))})
+        for f in sorted(x for x in os.listdir(out) if x.startswith("wrap") and x.endswith(".cpp")):
+            q = subprocess.run(["g++", "-std=c++11", "-fsyntax-only", "-w", "-I", ".", f], cwd=out, capture_output=True, text=True, timeout=300)
+            if q.returncode != 0:
+                w_, m_ = engine.first_error(q.stderr)
+                res["violations"].append({"mech": "qualified:wrapper-does-not-compile:%s" % m_, "detail": "%s %s\n%s" % (case["name"], f, q.stderr[:1500])})
         return res
     finally:
         if cwd:
